@@ -2,107 +2,58 @@
 
    frame/allocation/allocation.py keeps, in every Allocation, a list of
    RectAlloc(rect, alloc, depth) whose [rect] is a mutable Rectangle OBJECT.
-   The three refinement operations build a new Allocation and hand over the
-   very same Rectangle object for every cell they do not cut
-   (_split_allocation with levels = 0 returns [rect] itself; griddify appends
-   the RectAlloc it popped; uniform_refinement_depth returns [self] when all
-   depths are equal), and fresh objects (Rectangle.duplicate) for the pieces of
-   a cell they cut.  [rect.fixed] has a public setter which the repository uses
-   in place (Allocation._detect_fixed_rectangles, tests/.../test_griddify).
-   So a program can hold several allocations, derived from one another, call
-   them repeatedly, and flip the fixed flag of a cell in between: the flag is
-   then seen by every allocation that shares the Rectangle object.
+   The refinement operations build a new Allocation and (as the code stands)
+   hand over the very same Rectangle object for every cell they do not cut;
+   uniform_refinement_depth returns [self] when all depths are equal.
+   [rect.fixed] has a public setter which the repository uses in place
+   (Allocation._detect_fixed_rectangles, tests/.../test_griddify).  So a
+   program can hold several allocations, derived from one another, call them
+   repeatedly, and flip the fixed flag of a cell in between; the flag may then
+   be seen by other allocations that hold the same Rectangle object.
 
-   The model makes this explicit and stays a pure function of values:
-   a cell of a history carries the identity (a number) of its Rectangle object;
-   the state is the list of all allocations built so far; every step is one
-   call of the public API on one of them.  Definitions only (facts in
-   HistFacts.v).  The value functions are those of Alloc.v - nothing is
-   remembered between two calls, which is exactly the claim the correspondence
-   tests against the implementation run on the shared mutable objects. *)
+   The model makes this explicit and stays a pure function of values: the state
+   is the list of all allocations built so far (their current cells); every
+   step is one call of the public API on one of them, computed by the value
+   functions of Alloc.v on the CURRENT values - nothing is remembered between
+   two calls, which is exactly the claim the correspondence tests against the
+   implementation run on the shared mutable objects.
+
+   Which allocations share a Rectangle object is NOT part of C02 / C12 (a
+   refinement that copied the rectangles of the cells it keeps would satisfy
+   both), so the model does not predict it: the step [HSetFixed] carries the
+   flags observed after the assignment and the model checks that they are a
+   possible outcome - the addressed cell carries the new flag, and a cell
+   whose flag changed has the geometry of the addressed cell (an object has one
+   geometry) and carries the new flag - and goes on from these flags.
+   The position of a cell in the list of an allocation is no part of the
+   properties either: a cell is addressed by its centre (cells of an accepted
+   allocation do not overlap, so the centre identifies the cell).
+   Definitions only (facts in HistFacts.v). *)
 From FrameModel Require Import Num.QcTac Geometry.Rect Alloc.Alloc.
 From Coq Require Import Arith.
 Open Scope list_scope.
 Open Scope Qc_scope.
 
-Definition hcell := (nat * cell)%type.            (* identity of the Rectangle object, value of the cell *)
-Definition hvals (l : list hcell) : list cell := map snd l.
-
-Record hstate := mkH { hnext : nat;                  (* first unused object identity *)
-                       hallocs : list (list hcell) }. (* the allocations built so far, oldest first *)
+Definition hstate := list (list cell).       (* the allocations built so far, oldest first *)
 
 (* rect.fixed = b : nothing else of the rectangle changes *)
 Definition set_fixed (b : bool) (r : Rect) : Rect :=
   mkRect (cx r) (cy r) (rw r) (rh r) b (hard r) (region r) (rloc r).
 Definition cset_fixed (b : bool) (c : cell) : cell := mkCell (set_fixed b (crect c)) (calloc c) (cdepth c).
 
-(* the pieces a cell-wise step returns for the cell whose rectangle is object [id]:
-   a single piece is the cell itself (same object), several pieces are new objects *)
-Definition tag_pieces (id next : nat) (ps : list cell) : nat * list hcell :=
-  match ps with
-  | [p] => (next, [(id, p)])
-  | _ => ((next + List.length ps)%nat, combine (seq next (List.length ps)) ps)
-  end.
-Fixpoint hmap_step (f : cell -> option (list cell)) (next : nat) (l : list hcell)
-  : option (nat * list hcell) :=
-  match l with
-  | [] => Some (next, [])
-  | (id, c) :: r =>
-      match f c with
-      | None => None
-      | Some ps =>
-          match hmap_step f (fst (tag_pieces id next ps)) r with
-          | Some (n2, rest) => Some (n2, snd (tag_pieces id next ps) ++ rest)
-          | None => None
-          end
-      end
-  end.
-
-Definition hrefine_cells (t : Qc) (levels next : nat) (l : list hcell) :=
-  hmap_step (fun c => split_alloc (crect c) (calloc c) (cdepth c)
-                        (if splittable t c then levels else 0)) next l.
-Definition huniform_cells (next : nat) (l : list hcell) :=
-  let md := max_depth (hvals l) in
-  hmap_step (fun c => split_alloc (crect c) (calloc c) (cdepth c)
-                        (if fixed (crect c) then 0 else md - cdepth c)%nat) next l.
-Definition happly_cuts (f : Qc -> cell -> option (list cell)) (cuts : list Qc) (next : nat) (l : list hcell)
-  : option (nat * list hcell) :=
-  fold_left (fun acc x => match acc with
-                          | Some (n, cs) => hmap_step (f x) n cs
-                          | None => None end) cuts (Some (next, l)).
-Definition hgriddify_cells (eps q : Qc) (next : nat) (l : list hcell) :=
-  let (xc, yc) := gather_boundaries eps (map crect (hvals l)) in
-  match happly_cuts (cut_x q) (interior xc) next l with
-  | Some (n, cs) => happly_cuts (cut_y q) (interior yc) n cs
-  | None => None
-  end.
-
-(* Allocation(new_alloc): the constructor checks the values and keeps the objects *)
-Definition hmk (aeps : Qc) (r : option (nat * list hcell)) : option (nat * list hcell) :=
-  match r with
-  | Some (n, hl) => match mk_allocation aeps (hvals hl) with Some _ => Some (n, hl) | None => None end
-  | None => None
-  end.
-
-(* one refinement operation applied to the allocation whose cells are [l] *)
-Definition htrans (eps aeps q : Qc) (o : op) (next : nat) (l : list hcell) : option (nat * list hcell) :=
-  match o with
-  | OpRefine t levels =>
-      match levels with
-      | O => None
-      | _ => hmk aeps (hrefine_cells t levels next l)
-      end
-  | OpUniform =>
-      if Nat.eqb (max_depth (hvals l)) (min_depth (hvals l)) then Some (next, l)     (* return self *)
-      else hmk aeps (huniform_cells next l)
-  | OpGriddify => hmk aeps (hgriddify_cells eps q next l)
-  end.
+Definition centre_of (c : cell) : Qc * Qc := (cx (crect c), cy (crect c)).
+Definition at_centre (x y : Qc) (c : cell) : bool := Qceqb (cx (crect c)) x && Qceqb (cy (crect c)) y.
+Definition same_geom (a b : cell) : bool :=
+  Qceqb (cx (crect a)) (cx (crect b)) && Qceqb (cy (crect a)) (cy (crect b)) &&
+  Qceqb (rw (crect a)) (rw (crect b)) && Qceqb (rh (crect a)) (rh (crect b)).
 
 (* ---- steps of a history: one call of the public API on the k-th allocation built so far ---- *)
 Inductive hop :=
 | HApply (k : nat) (o : op)            (* b = A[k].refine(t, levels) / .uniform_refinement_depth() / .griddify(); b is kept *)
 | HCopy (k : nat)                      (* b = Allocation([(c.rect, c.alloc, c.depth) for c in A[k].allocations]); kept *)
-| HSetFixed (k : nat) (x y : Qc) (b : bool)   (* c.rect.fixed = b for the cell c of A[k] whose centre is (x, y) *)
+| HSetFixed (k : nat) (x y : Qc) (b : bool) (after : list (list (Qc * Qc)))
+      (* c.rect.fixed = b for the cell c of A[k] whose centre is (x, y);
+         after = the centres of the fixed cells of every allocation, observed after the assignment *)
 | HMbr (k : nat) (t : Qc)              (* A[k].must_be_refined(t) *)
 | HMaxDepth (k : nat)                  (* A[k].max_refinement_depth() *)
 | HNumRect (k : nat)                   (* A[k].num_rectangles *)
@@ -111,53 +62,70 @@ Inductive hop :=
 Inductive hobs :=
 | ONew (r : option (list cell))                      (* the cells of the new allocation; None = the call raised *)
 | OFixed (fl : list (list (Qc * Qc)))                (* the centres of the fixed cells of every allocation *)
+| OImpossible                                        (* the observed flags are no possible outcome of the assignment *)
 | OBool (b : bool)
 | ONat (n : nat)
 | OAreas (l : list (string * Qc * (Qc * Qc))).
 
-(* The position of a cell in the list of an allocation is not part of what C02 / C12 state, so a cell is addressed
-   by its centre (cells of an accepted allocation do not overlap: the centre identifies the cell); an allocation by
-   its index in the history, taken modulo the number of allocations built so far.  Every step is defined. *)
-Definition hget (s : hstate) (k : nat) : list hcell :=
-  nth (k mod List.length (hallocs s)) (hallocs s) [].
-Definition centre_of (c : cell) : Qc * Qc := (cx (crect c), cy (crect c)).
-Definition at_centre (x y : Qc) (hc : hcell) : bool :=
-  Qceqb (cx (crect (snd hc))) x && Qceqb (cy (crect (snd hc))) y.
+(* the index of an allocation is taken modulo the number of allocations built so far: every step is defined *)
+Definition hget (s : hstate) (k : nat) : list cell := nth (k mod List.length s) s [].
 Definition hfixed (s : hstate) : list (list (Qc * Qc)) :=
-  map (fun l => map centre_of (filter (fun c => fixed (crect c)) (hvals l))) (hallocs s).
-Definition hset_cell (id : nat) (b : bool) (hc : hcell) : hcell :=
-  if Nat.eqb (fst hc) id then (fst hc, cset_fixed b (snd hc)) else hc.
-Definition hset_fixed (id : nat) (b : bool) (s : hstate) : hstate :=
-  mkH (hnext s) (map (map (hset_cell id b)) (hallocs s)).
+  map (fun l => map centre_of (filter (fun c => fixed (crect c)) l)) s.
 Definition areas_of (cells : list cell) : list (string * Qc * (Qc * Qc)) :=
   map (fun m => (m, area_of m cells, center_of m cells)) (module_names cells).
+
+(* the state with the flags [after] *)
+Definition mem_centre (p : Qc * Qc) (l : list (Qc * Qc)) : bool :=
+  existsb (fun q => Qceqb (fst q) (fst p) && Qceqb (snd q) (snd p)) l.
+Definition reflag_alloc (fl : list (Qc * Qc)) (l : list cell) : list cell :=
+  map (fun c => cset_fixed (mem_centre (centre_of c) fl) c) l.
+Fixpoint reflag (after : list (list (Qc * Qc))) (s : hstate) : hstate :=
+  match after, s with
+  | fl :: after', l :: s' => reflag_alloc fl l :: reflag after' s'
+  | _, _ => []
+  end.
+(* a possible outcome of  c0.rect.fixed = b : a flag that changed belongs to a cell with the geometry of c0 and is b *)
+Definition flag_ok (c0 : cell) (b : bool) (c c' : cell) : bool :=
+  Bool.eqb (fixed (crect c')) (fixed (crect c)) || (same_geom c0 c && Bool.eqb (fixed (crect c')) b).
+Fixpoint flags_ok (c0 : cell) (b : bool) (s s' : hstate) : bool :=
+  match s, s' with
+  | [], [] => true
+  | l :: r, l' :: r' =>
+      Nat.eqb (List.length l) (List.length l') &&
+      forallb (fun p => flag_ok c0 b (fst p) (snd p)) (combine l l') && flags_ok c0 b r r'
+  | _, _ => false
+  end.
 
 Definition hstep (eps aeps q : Qc) (o : hop) (s : hstate) : hstate * hobs :=
   match o with
   | HApply k o' =>
-      match htrans eps aeps q o' (hnext s) (hget s k) with
-      | Some (n, hl) => (mkH n (hallocs s ++ [hl]), ONew (Some (hvals hl)))
+      match run_op eps aeps q o' (hget s k) with
+      | Some new => (s ++ [new], ONew (Some new))
       | None => (s, ONew None)
       end
   | HCopy k =>
-      match mk_allocation aeps (hvals (hget s k)) with
-      | Some _ => (mkH (hnext s) (hallocs s ++ [hget s k]), ONew (Some (hvals (hget s k))))
+      match mk_allocation aeps (hget s k) with
+      | Some new => (s ++ [new], ONew (Some new))
       | None => (s, ONew None)
       end
-  | HSetFixed k x y b =>
+  | HSetFixed k x y b after =>
       match find (at_centre x y) (hget s k) with
-      | Some hc => let s' := hset_fixed (fst hc) b s in (s', OFixed (hfixed s'))
-      | None => (s, OFixed (hfixed s))
+      | Some c0 =>
+          let s' := reflag after s in
+          if flags_ok c0 b s s' &&
+             match find (at_centre x y) (hget s' k) with Some c1 => Bool.eqb (fixed (crect c1)) b | None => false end
+          then (s', OFixed (hfixed s')) else (s, OImpossible)
+      | None => (s, OImpossible)
       end
-  | HMbr k t => (s, OBool (must_be_refined t (hvals (hget s k))))
-  | HMaxDepth k => (s, ONat (max_depth (hvals (hget s k))))
+  | HMbr k t => (s, OBool (must_be_refined t (hget s k)))
+  | HMaxDepth k => (s, ONat (max_depth (hget s k)))
   | HNumRect k => (s, ONat (List.length (hget s k)))
-  | HAreas k => (s, OAreas (areas_of (hvals (hget s k))))
+  | HAreas k => (s, OAreas (areas_of (hget s k)))
   end.
 
 Definition hop_target (o : hop) : nat :=
   match o with
-  | HApply k _ | HCopy k | HSetFixed k _ _ _ | HMbr k _ | HMaxDepth k | HNumRect k | HAreas k => k
+  | HApply k _ | HCopy k | HSetFixed k _ _ _ _ | HMbr k _ | HMaxDepth k | HNumRect k | HAreas k => k
   end.
 
 (* an event: the call, the values of the allocation it was applied to at that moment, what it returned *)
@@ -166,14 +134,13 @@ Fixpoint run_hist (eps aeps q : Qc) (ops : list hop) (s : hstate) : hstate * lis
   match ops with
   | [] => (s, [])
   | o :: r =>
-      let src := hvals (hget s (hop_target o)) in
+      let src := hget s (hop_target o) in
       let (s1, ob) := hstep eps aeps q o s in
       let (s2, evs) := run_hist eps aeps q r s1 in
       (s2, (o, src, ob) :: evs)
   end.
 
-Definition hinit (cells : list cell) : hstate :=
-  mkH (List.length cells) [combine (seq 0 (List.length cells)) cells].
+Definition hinit (cells : list cell) : hstate := [cells].
 
 (* Allocation(cells) followed by the calls [ops]: None = the constructor raises *)
 Definition hist (eps aeps q : Qc) (cells : list cell) (ops : list hop) : option (list hobs) :=
